@@ -209,7 +209,11 @@ fn source(limit: usize, embedded: bool) -> impl Strategy<Value = PicSource> {
     ]
 }
 
-fn strategy(_tier: Tier) -> BoxedStrategy<Script> {
+fn strategy(tier: Tier) -> BoxedStrategy<Script> {
+    simgen::in_environment(strategy_plain(tier)).boxed()
+}
+
+fn strategy_plain(_tier: Tier) -> BoxedStrategy<Script> {
     let limit = prop_oneof![1 => 1..8usize, 2 => 8..600usize, 1 => Just(4096usize), 1 => Just(8192usize), 1 => 600..16_384usize];
     limit
         .prop_flat_map(|limit| (Just(limit), source(limit, true), source(limit, false)))
